@@ -4,28 +4,30 @@
 #   tools/fuzz.sh choices <ID> <runs> [seed]    choice-string target for one property (all its oracles)
 # Exit 0: no crash in the explored inputs; exit 1 + VIOLATION line: a crash artifact was saved; exit 2: build trouble.
 set -u
-cd /verif
+HERE="$(cd "$(dirname "$0")/.." && pwd)"
+cd "$HERE"
+export CARGO_TARGET_DIR="$HERE/target/fuzz"
 export CARGO_NET_OFFLINE=true
-export VERIF_ROOT=/verif
+export VERIF_ROOT="$HERE"
 target="$1"; shift
-work=/verif/work/fuzz
+work="$HERE/work/fuzz"
 mkdir -p "$work"
 ./check --build >/dev/null 2>&1 || { echo "INCONCLUSIVE: harness build failed"; exit 2; }
-cargo +nightly fuzz build --fuzz-dir /verif/fuzz "$target" >"$work/build.log" 2>&1 || { echo "INCONCLUSIVE: fuzz build failed (see $work/build.log)"; exit 2; }
+cargo +nightly fuzz build --fuzz-dir "$HERE/fuzz" "$target" >"$work/build.log" 2>&1 || { echo "INCONCLUSIVE: fuzz build failed (see $work/build.log)"; exit 2; }
 if [ "$target" = sections ]; then
   runs="${1:-200000}"; seed="${2:-1}"; prop=C01
   corpus="$work/corpus-sections"; rm -rf "$corpus"; mkdir -p "$corpus"
-  /verif/target/release/vpcheck --corpus "$corpus" 64 x
+  "$HERE/target/release/vpcheck" --corpus "$corpus" 64 x
   maxlen=65536
 else
   prop="$1"; runs="${2:-200000}"; seed="${3:-1}"
   export FUZZ_PROP="$prop"
   corpus="$work/corpus-choices-$prop"; rm -rf "$corpus"; mkdir -p "$corpus"
   # replay files of the property are choice strings: use them as the starting corpus
-  python3 - "$prop" "$corpus" <<'PY'
+  python3 - "$prop" "$corpus" "$HERE" <<'PY'
 import json,sys,glob,os
-prop,out=sys.argv[1],sys.argv[2]
-for i,f in enumerate(sorted(glob.glob(f"/verif/replays/{prop}/*.json"))):
+prop,out,here=sys.argv[1],sys.argv[2],sys.argv[3]
+for i,f in enumerate(sorted(glob.glob(f"{here}/replays/{prop}/*.json"))):
     d=json.load(open(f))
     if d.get("mode")=="choices":
         open(os.path.join(out,f"replay-{i:03}"),"wb").write(bytes.fromhex(d["data"]))
@@ -35,7 +37,7 @@ PY
 fi
 art="$work/artifacts-$target-$prop/"; mkdir -p "$art"
 [ "$seed" = 0 ] && seed=1
-cargo +nightly fuzz run --fuzz-dir /verif/fuzz "$target" "$corpus" -- -runs="$runs" -seed="$seed" -max_len="$maxlen" -len_control=0 -timeout=60 -rss_limit_mb=8192 -artifact_prefix="$art" -print_final_stats=1 >"$work/run-$target-$prop.log" 2>&1
+cargo +nightly fuzz run --fuzz-dir "$HERE/fuzz" "$target" "$corpus" -- -runs="$runs" -seed="$seed" -max_len="$maxlen" -len_control=0 -timeout=60 -rss_limit_mb=8192 -artifact_prefix="$art" -print_final_stats=1 >"$work/run-$target-$prop.log" 2>&1
 rc=$?
 grep -E "stat::number_of_executed_units|stat::new_units_added|cov:" "$work/run-$target-$prop.log" | tail -3
 if [ $rc -ne 0 ]; then
